@@ -195,8 +195,26 @@ package writer
 //@   modifies writer.messageStack.*
 //@   modifies format.MessageField.*
 //@   ensures len(s.stack) == old(len(s.stack)) + 1
+//@   let n = len(s.stack)
+//@   let T0 = tableOffset
+//@   ensures[C01] (forall i :: 0 <= i && i < T0 ==> s.stack[i].Tag == old(s.stack[i].Tag) && s.stack[i].Offset == old(s.stack[i].Offset))
+//@   ensures[C01] exists p :: T0 <= p && p <= n && s.stack[p].Tag == f.Tag && s.stack[p].Offset == f.Offset
+//@        && (forall i :: T0 <= i && i < p ==> s.stack[i].Tag == old(s.stack[i].Tag) && s.stack[i].Offset == old(s.stack[i].Offset))
+//@        && (forall i :: p < i && i <= n ==> s.stack[i].Tag == old(s.stack[i-1].Tag) && s.stack[i].Offset == old(s.stack[i-1].Offset))
+//@        && (forall i :: p < i && i <= n ==> f.Tag <= s.stack[i].Tag)
+//@        && (p > T0 ==> s.stack[p-1].Tag < f.Tag)
+//@   ensures[C01] (forall i, j :: T0 <= i && i < j && j < n ==> old(s.stack[i].Tag) < old(s.stack[j].Tag)) && (forall i :: T0 <= i && i < n ==> old(s.stack[i].Tag) != f.Tag)
+//@        ==> (forall i, j :: T0 <= i && i < j && j <= n ==> s.stack[i].Tag < s.stack[j].Tag)
 //@   loop 1 modifies format.MessageField.* 
 //@   loop 1 invariant 0 <= i && i < len(table)
+//@   loop 1 invariant len(table) == n + 1 - T0
+//@   loop 1 invariant obj(table) == obj(s.stack)
+//@   loop 1 invariant off(table) == off(s.stack) + T0
+//@   loop 1 invariant len(s.stack) == n + 1
+//@   loop 1 invariant[C01] s.stack[T0 + i].Tag == f.Tag && s.stack[T0 + i].Offset == f.Offset
+//@   loop 1 invariant[C01] (forall k :: 0 <= k && k < T0 + i ==> s.stack[k].Tag == old(s.stack[k].Tag) && s.stack[k].Offset == old(s.stack[k].Offset))
+//@   loop 1 invariant[C01] (forall k :: T0 + i < k && k <= n ==> s.stack[k].Tag == old(s.stack[k-1].Tag) && s.stack[k].Offset == old(s.stack[k-1].Offset))
+//@   loop 1 invariant[C01] (forall k :: T0 + i < k && k <= n ==> f.Tag <= s.stack[k].Tag)
 
 //@ func (*messageStack).pop
 //@   safety[C12]
